@@ -6,6 +6,7 @@ package harness
 
 import (
 	"fmt"
+	"math"
 	"sort"
 	"strings"
 	"testing"
@@ -171,7 +172,9 @@ func (s *viaSearchCache) keys() []int        { return nil }
 func genC12(rt *rapid.T) C12Case {
 	c := C12Case{}
 	c.Capacity = rapid.SampledFrom([]int{-3, 0, 1, 1, 2, 2, 3, 3, 5}).Draw(rt, "capacity")
-	c.TTL = rapid.SampledFrom([]int64{-5, 0, 0, 1, 1000, int64(time.Second), int64(time.Second), int64(time.Hour)}).Draw(rt, "ttl")
+	c.TTL = rapid.SampledFrom([]int64{-5, 0, 0, 1, 1000, int64(time.Second), int64(time.Second), int64(time.Hour), int64(time.Hour),
+		int64(100 * 365 * 24 * time.Hour), int64(290 * 365 * 24 * time.Hour), math.MaxInt64, // "practically never": sums with the clock overflow
+	}).Draw(rt, "ttl")
 	c.SearchCache = rapid.IntRange(0, 4).Draw(rt, "entry") == 0
 	if c.Capacity <= 0 {
 		c.FillDefault = rapid.IntRange(0, 2).Draw(rt, "fill") == 0
@@ -189,6 +192,9 @@ func genC12(rt *rapid.T) C12Case {
 			base := c.TTL
 			if base <= 0 {
 				base = int64(time.Second)
+			}
+			if base > int64(1000*time.Hour) {
+				base = int64(time.Hour)
 			}
 			mult := rapid.SampledFrom([]int64{0, 1, 1, 1, 2, 3}).Draw(rt, "mult")
 			delta := rapid.SampledFrom([]int64{-1, 0, 0, 1}).Draw(rt, "delta")
